@@ -25,6 +25,8 @@ M = {
  "merely begin with a reserved word": ("C17", "H-keyword-prefix-idents", "needs a name that begins with if/else/return/raise/yield/defer"),
  "map printing keeps insertion order": ("C08", "H-map-print-lookalike-order", "needs a map with two scalar keys that print alike (floats equal to six decimals) printed twice / in two processes"),
  "equality compare pairs in key order": ("C08", "H-eq-visits-pairs-in-hash-order", "needs an obj or map with >= 2 pairs whose values have an own == that prints or raises, compared twice / in two processes"),
+ "Str#== is reflexive": ("C05", "H-str-child-not-equal-to-itself", "needs a child of Str made by bear used as prototype (T := Str.bear({...})), then kindOf?(T) on T, on its children or on T.new(...)"),
+ "printing keeps duplicated keyword names": ("C08", "H-ast-print-duplicate-names", "needs a function whose parameters or whose body's calls repeat one keyword name, printed twice / in two processes"),
  "SymHash2Str takes the read lock": ("C20", "H-symhash2str-race", "needs one evaluation interning new symbols while another converts symbols to strings"),
 }
 log = subprocess.run(["git", "-C", "/repo", "log", "--format=%h %s"], capture_output=True, text=True).stdout.splitlines()
